@@ -647,6 +647,15 @@ def check_c14(tier, seed):
                     got = open(hp).read() if os.path.exists(hp) else None
                     if got != c["text"]:
                         hist[label] = got
+                # the same migration written through a relative output path / into a directory that does not exist yet
+                for label, rel in (("relative-output-path", os.path.join("h%d" % c["k"], "rel.go")), ("output-in-new-directory", os.path.join("h%d" % c["k"], "new", "dir", "out.go"))):
+                    rc_r, out_r = run_migrate(c, rel)
+                    pth = os.path.join(ws.root, rel)
+                    got = open(pth).read() if os.path.exists(pth) else None
+                    if label == "output-in-new-directory" and got is None and rc_r != 0:
+                        continue            # refusing to create directories is fine, as long as it is reported
+                    if got != c["text"]:
+                        hist[label] = got
                 c["history_diff"] = hist
                 open(outp, "w").write(c["text"])
                 rcf, outf = C.run(["gofmt", "-l", outp], timeout=60)
@@ -705,7 +714,7 @@ def check_c14(tier, seed):
             if not c["same"]:
                 report(c, "not-deterministic", "repeated runs (GOMAXPROCS 1 / 7) produced different bytes")
             for label, got in c.get("history_diff", {}).items():
-                report(c, "depends-on-previous-output", "migrating onto an output path that holds a %s gives different bytes than a fresh path (%s)" % (
+                report(c, "depends-on-output-path", "migrating with %s gives different bytes than a fresh absolute path (%s)" % (
                     label, "no file" if got is None else "tail: %r" % got[-80:]))
             decl = re.findall(r"^var (\w+) = kessoku\.Set\(", c["text"], re.M)
             if sorted(decl) != sorted(c["meta"]["sets"]):
